@@ -80,3 +80,28 @@ def register(add, NOTE):
         "impedances are tied to the extracted formulas at two frequencies on one object.",
         "Rocq invariant proof over a cache state machine + history / process oracles on the real code", "DESIGN.md §6 C14",
         note=NOTE + " BLAS/thread non-determinism is runtime behaviour outside the model.")
+
+    PART = " PARTIAL as stated in the level text."
+    add("C02",
+        "The complete matrix fill (exact kernel with elliptic integral, small-radius closed forms, Gauss order by distance, derived scalar "
+        "potentials, diagonal / symmetric copies, image pass) is a Gallina model that reproduces EVERY entry of Mininec.Z to 1e-14 of "
+        "max|Z| on random antennas (tolerance 1e-9). Theorems: a directly computed entry is the published MININEC-3 expression for ANY "
+        "potential functional; over ground the entry is the free-space term minus the same expression for the mirrored source except "
+        "grounded sources; the image pass integrates the same kernel over the mirrored chord; far-pair potentials are orientation free "
+        "(numpy's Gauss tables are symmetric, checked on the dumped integers). PARTIAL: the 1e-4 agreement of Gauss quadrature with the "
+        "exact integral is measured by adaptive quadrature on geometry derived from the touching segments.",
+        "Rocq proof over a path-faithful model + entry-wise vm_compute correspondence + quadrature oracle", "DESIGN.md §6 C02, App. A.2", note=NOTE + PART)
+    add("C03",
+        "Theorems: image term of the matrix, kernel of the image pass, weight 2 of grounded excitations (extracted), far-field masks = real "
+        "elements + mirror elements (incl. grounded pulses), same fields at half power = +3.0103 dB (interval). PARTIAL: equality of the "
+        "solutions of the ground system and the mirrored free-space system is measured on the real code (generated mirror antennas).",
+        "Rocq proof (ingredients of image theory) + correspondence + mirrored-antenna oracle", "DESIGN.md §6 C03", note=NOTE + PART)
+    add("C05",
+        "Theorems: the potential integral is invariant under rotations of the chord and sees only differences; thin-kernel EM scaling 1/s; "
+        "rotations are isometries composed X,Y,Z; scaling multiplies lengths. PARTIAL: invariance of currents / impedances / pattern of "
+        "the assembled system is measured (options vs coordinates, up to 300 wavelengths, factors 0.01..100).",
+        "Rocq proof (invariances of the kernel and the transformations) + correspondence + metamorphic oracle", "DESIGN.md §6 C05", note=NOTE + PART)
+    add("C06",
+        "Theorems: symmetric Gauss tables => potential of a source segment independent of its orientation (far pairs); junction sense rule "
+        "from end indices alone. PARTIAL: equivariance of the assembled solution under reversal / reordering / splitting is measured.",
+        "Rocq proof (orientation independence) + correspondence + re-description oracle", "DESIGN.md §6 C06", note=NOTE + PART)
